@@ -207,6 +207,13 @@ def run(ctx):
                 H[h].hedge(part[:1])  # a batch of one
                 H[h].hedge(part[:8].astype(np.float32))
                 H[h].hedge(part[:6].reshape(2, 3))
+                # degrees as they come out of other tools: a numpy.matrix (elementwise all the same), batches without elements
+                for odd in (np.asmatrix(part[:6].reshape(2, 3)), np.asmatrix(part[:4]), np.empty(0), np.empty((0, 3)), []):
+                    try:
+                        H[h].hedge(odd)
+                    except Exception:
+                        pass  # judged by the monitor
+                ctx.hit("workload:matrix-typed and zero-size degrees")
             inverse_pairs(ctx, fl, part)
             ctx.sample("grid", {"grid": f"k/2^{m}, chunk {i} of {nchunk}", "neighbours_of_0.5": nb, "very(0.25)": float(H["very"].hedge(0.25)), "seldom(0.5)": float(H["seldom"].hedge(0.5))})
         nr = ctx.scale(4, 64)
@@ -300,12 +307,31 @@ def run(ctx):
                 # (the shape of the result is the function's own business for a single value; the values are not)
                 if got.size != want.size or not np.allclose(got.ravel(), want.ravel(), rtol=0, atol=1e-15):
                     ctx.violation("a hedge given as a Python function is not applied element by element", {"function": name, "x": arg}, want, got)
+        # several function hedges alive at once: each computes its own function, whatever was created after it
+        for i, rnd in ctx.cases("several function hedges", ctx.scale(20, 400)):
+            fs = rnd.sample([(lambda x: x * 0.5, "x/2"), (lambda x: x * x, "x^2"), (lambda x: 1.0 - x, "1-x"), (lambda x: x**0.5, "sqrt"), (lambda x: x * 0.0 + 1.0, "one")], 3)
+            made = [(fl.HedgeLambda(f"h{k}" if i % 2 else "custom", f), f, name) for k, (f, name) in enumerate(fs)]
+            if i % 3 == 0:
+                try:
+                    made += [(fl.HedgeFunction(fl.Function.create("g", formula)), f, formula) for formula, f in (("x * 0.5", lambda x: x * 0.5), ("x ^ 2.0", lambda x: x * x))]
+                except Exception as ex:
+                    ctx.hit(f"inconclusive:HedgeFunction not constructible: {type(ex).__name__}")
+            X = np.array([0.0, 0.25, 0.5, 0.81, 1.0])
+            for hedge, f, name in made + made[::-1]:
+                ctx.evaluated()
+                got = np.asarray(hedge.hedge(X), dtype=float)
+                want = np.asarray(f(X), dtype=float)
+                ctx.hit("event:function hedges created one after the other, all used afterwards")
+                if got.shape != want.shape or not np.allclose(got, want, rtol=0, atol=1e-12):
+                    ctx.violation("a hedge given as a function computes another hedge's function", {"function": name, "others": [n for _, _, n in made]}, want, got)
+                    break
         mon.check_relations()
         probe.report(ctx)
         reach.report(ctx)
     ctx.exhaustive = True
     ctx.extra["exhaustive_space"] = f"all x = k/2^{m}, k = 0..2^{m}, for each of the 6 hedges (plus non-exhaustive random doubles)"
     ctx.require("float_type:float32", "float_type:float16", *[f"environment:{e}" for e in ENVIRONMENTS])
+    ctx.require("workload:matrix-typed and zero-size degrees", "event:function hedges created one after the other, all used afterwards")
     for h in names:
         ctx.require(f"hook:{CLASSES[h]}.hedge", "event:buffer refilled in place", "layout:transposed", "layout:read-only row broadcast over a batch", "workload:ends of the scale (negative zero, subnormals)", "lambda hedge: evaluated", "workload:large batch", "law:results of earlier calls left alone")
     for h in ("extremely", "seldom"):
